@@ -6,6 +6,7 @@ For every generated tree of instrumented objects the single-fault space
 values and fault pairs are added. Oracle: differential against the real code - the run in
 which invocation i *returns* repr(value) instead of raising.
 """
+import inspect
 import itertools
 import os
 import random
@@ -18,13 +19,17 @@ from simkit import core
 ID = 'C14'
 LEVEL = 'fault_enumeration'
 RUN_TIMEOUT = 120.0
+MAX_SITES = 16
 CHUNK = 10
-TIERS = {'quick': dict(runs=4000, budget_s=70), 'thorough': dict(runs=120000, budget_s=1500)}
-RULE = ('each evaluation is one seeded tree (<=14 printer invocations; four harness classes: printer '
-        'with / without trailing_comment support, registered by predicate, registered by name; built-in '
-        'containers; comment()/trailing_comment() wrappers; shared children) for which ALL single faults '
-        '(invocation x {entry, after-children} x {TypeError + 2 seeded exception classes}) are injected, '
-        'plus one non-doc return per invocation and sampled fault pairs; every faulty print is followed '
+TIERS = {'quick': dict(runs=2400, budget_s=75), 'thorough': dict(runs=40000, budget_s=1500)}
+RULE = ('each evaluation is one seeded tree (four harness classes: printer with / without trailing_comment '
+        'support, registered by predicate, registered by name + subclass; built-in containers; comment()/'
+        'trailing_comment() wrappers; shared children; per-tree knob: bundled printers of list/tuple/dict '
+        '(and of the leaf types) instrumented as fault sites too) for which ALL single faults '
+        '(invocation x {entry, after-children} x {TypeError + 2 seeded exception classes}, half of them with '
+        'an awkward message payload such as braces, percent signs, newlines, non-ASCII) are injected for up '
+        'to 16 sites per tree (every further site gets one fault), plus one non-doc return per site and '
+        'sampled fault pairs; every faulty print is followed '
         'by fault-free prints in the same process. distinct = distinct (tree, width) digest; non-trivial = '
         'distinct AND at least one injected fault fired below the top level or under a trailing comment.')
 REAL = ['prettyprinter/* (tree under check)', 'functools.singledispatch', 'warnings', 'inspect.signature']
@@ -44,6 +49,9 @@ EXC = {c.__name__: c for c in (ValueError, TypeError, KeyError, AttributeError, 
                                ZeroDivisionError, AssertionError, RecursionError, StopIteration,
                                OSError, LookupError, ArithmeticError, NotImplementedError,
                                UnicodeError, Boom)}
+# exception payloads: text that a careless warning/format path could choke on
+PAYLOADS = ['injected fault', '{}', '{name} {0}', '%s %(x)d %', 'line1\nline2', 'sn\u00f6wm\u00e4n \u2603', "{'id': 3}",
+            '', '}{', '\\N{bad}', 'x' * 300]
 NONDOCS = {'None': None, 'int': 0, 'bytes': b'', 'list': [], 'object': object(), 'tuple': ('a',)}
 
 PLAN = {}            # invocation index -> (phase, mode, arg)
@@ -59,6 +67,9 @@ class Node:
 
     def __repr__(self):
         return '%s<%s>' % (type(self).__name__, self.name)
+
+    def __str__(self):          # differs from repr on purpose: the fall-back must be repr
+        return 'str-of-%s' % self.name
 
 
 class NT(Node):      # printer accepts trailing_comment
@@ -100,10 +111,52 @@ def _fire(i, plan, v, me):
     FIRED.append((i, me.__name__))
     mode, arg = plan[1], plan[2]
     if mode == 'raise':
-        raise EXC[arg]('injected fault at invocation %d' % i)
+        payload = PAYLOADS[plan[3] % len(PAYLOADS)] if len(plan) > 3 and plan[3] is not None else \
+            'injected fault at invocation %d' % i
+        if arg == 'KeyError' and payload.startswith('{\''):
+            raise KeyError({'id': 3})
+        raise EXC[arg](payload)
     if mode == 'nondoc':
         return NONDOCS[arg]
     return repr(v)          # mode == 'repr': the healthy reference
+
+
+BUNDLED_CONTAINERS = (list, tuple, dict)
+BUNDLED_LEAVES = (int, str, float, bool, type(None))
+
+
+def wrap_bundled(types):
+    """Fault seam for bundled printers (no repo hook): re-register a functools.wraps copy of the
+    function found in the dispatch registry. Returns the number of printers wrapped; a registry
+    that no longer has the partial(_run_pretty, fn) shape is skipped (and said so in evidence)."""
+    import functools
+    n = 0
+    for t in types:
+        entry = PP.pretty_dispatch.registry.get(t)
+        fn = getattr(entry, 'args', (None,))[0] if isinstance(entry, functools.partial) else None
+        if fn is None or not callable(fn) or getattr(fn, '_verif_wrapped', False):
+            continue
+
+        def make(fn):
+            sig = inspect.signature(fn)
+
+            @functools.wraps(fn)
+            def wrapper(value, ctx, *a, **kw):
+                sig.bind(value, ctx, *a, **kw)      # same TypeError as the real printer, before any body runs
+                i = COUNT[0]
+                COUNT[0] += 1
+                plan = PLAN.get(i)
+                if plan is not None and plan[0] == 0:
+                    return _fire(i, plan, value, fn)
+                doc = fn(value, ctx, *a, **kw)
+                if plan is not None:
+                    return _fire(i, plan, value, fn)
+                return doc
+            wrapper._verif_wrapped = True
+            return wrapper
+        P.register_pretty(t)(make(fn))
+        n += 1
+    return n
 
 
 def setup():
@@ -134,9 +187,9 @@ def gen_tree(r, budget, depth=0, pool=None):
     k = r.random()
     if pool is not None and pool[0] > 0 and k < 0.12:
         node = ['ref', r.randrange(pool[0])]
-    elif depth > 3 or k < 0.25 or (budget[0] <= 0 and k < 0.7):
+    elif depth > 4 or k < 0.18 or (budget[0] <= 0 and k < 0.75):
         node = ['leaf', r.choice([1, 'leaf', None, 2.5, 'a longer leaf string', True])]
-    elif k < 0.62 and budget[0] > 0:
+    elif k < 0.70 and budget[0] > 0:
         budget[0] -= 1
         kind = r.choice(['NT', 'NT', 'NP', 'NP', 'NPred', 'NName', 'NSub'])
         kids = [gen_tree(r, budget, depth + 1, pool) for _ in range(r.randrange(0, 3))]
@@ -187,13 +240,14 @@ def build(node, env):
 
 def generate(rng, idx, tier):
     for _ in range(20):
-        budget = [rng.randrange(1, 9)]
+        budget = [rng.randrange(1, 13)]
         tree = gen_tree(rng, budget, 0, [0])
         if 'obj' in repr(tree):
             break
     excs = sorted(EXC)
     return dict(tree=tree, width=rng.choice([20, 40, 79]), mode='enumerate',
-                exc_seed=rng.randrange(1 << 30), pairs=3 if tier == 'quick' else 8)
+                exc_seed=rng.randrange(1 << 30), pairs=3 if tier == 'quick' else 8,
+                bundled=rng.choice(['none', 'none', 'none', 'containers', 'containers', 'all']))
 
 
 # ------------------------------------------------------------------ execution
@@ -216,7 +270,7 @@ def _print(v, width, plan):
 def _check_fault(v, width, faults, base, other, other_base):
     """faults: list of [i, phase, kind, arg]. Returns (violation dict or None, fired count, info)."""
     ref_plan = {f[0]: (f[1], 'repr', None) for f in faults}
-    bad_plan = {f[0]: (f[1], f[2], f[3]) for f in faults}
+    bad_plan = {f[0]: (f[1], f[2], f[3], f[4] if len(f) > 4 else None) for f in faults}
     ref, rw, _, rfired = _print(v, width, ref_plan)
     got, gw, _, gfired = _print(v, width, bad_plan)
     again, aw, _, _ = _print(v, width, {})
@@ -249,8 +303,7 @@ def _check_fault(v, width, faults, base, other, other_base):
     if got[0] != 'ok':
         return viol('raised', got[1]), info
     if got != ref:
-        under_tc = 'tc' if any(f[4] for f in faults if len(f) > 4) else 'plain'
-        return viol('text_differs', under_tc), info
+        return viol('text_differs', 'text'), info
     # warnings: exactly one more per fired fault, a UserWarning naming the printer
     rest = list(gw)
     for m in rw:
@@ -274,14 +327,12 @@ def _check_fault(v, width, faults, base, other, other_base):
     return None, info
 
 
-def _tc_positions(v, width):
-    """Invocation indices whose value sits directly under a trailing comment."""
-    return set()
-
-
 def execute(spec):
     sys.setrecursionlimit(3000)
     tree = spec['tree']
+    wrapped = 0
+    if spec.get('bundled', 'none') != 'none':
+        wrapped = wrap_bundled(BUNDLED_CONTAINERS + (BUNDLED_LEAVES if spec['bundled'] == 'all' else ()))
     v = build(tree, [])
     width = spec['width']
     other = {'unrelated': [1, NT('z', [2])], 'k': (3,)}
@@ -309,11 +360,17 @@ def execute(spec):
             res['class'] = vio['cls']
             res['signature'] = vio['signature']
             res['detail'] = dict(vio['detail'], tree=tree, width=width, base=base[0][1][:600])
-            res['replay_spec'] = dict(tree=tree, width=width, mode='explicit', faults=faults)
+            res['replay_spec'] = dict(tree=tree, width=width, mode='explicit', faults=faults,
+                                      bundled=spec.get('bundled', 'none'))
             return True
         return False
 
     counters['invocations'] = n
+    if wrapped:
+        counters['trees_with_bundled_printers_instrumented'] = 1
+        counters['bundled_printers_wrapped'] = wrapped
+    elif spec.get('bundled', 'none') != 'none':
+        counters['bundled_seam_unavailable'] = 1
     if has_tc:
         counters['trees_with_trailing_comment'] = 1
     if spec['mode'] == 'explicit':
@@ -322,19 +379,29 @@ def execute(spec):
         return res
     r = random.Random(spec['exc_seed'])
     names = sorted(EXC)
-    for i in range(n):
+    order = list(range(n))
+    if n > MAX_SITES:
+        # very large trees: all sites still get one fault each, a seeded subset gets the full product
+        counters['trees_above_site_cap'] = 1
+    full = set(order if n <= MAX_SITES else r.sample(order, MAX_SITES))
+    for i in order:
         for phase in (0, 1):
-            for exc in ['TypeError'] + r.sample([x for x in names if x != 'TypeError'], 2):
-                if handle([[i, phase, 'raise', exc]]):
+            excs = ['TypeError'] + r.sample([x for x in names if x != 'TypeError'], 2)
+            if i not in full:
+                excs = [r.choice(excs)] if phase == i % 2 else []
+            for exc in excs:
+                if handle([[i, phase, 'raise', exc, r.randrange(len(PAYLOADS)) if r.random() < 0.5 else None]]):
                     return res
+        if i not in full:
+            continue
         if handle([[i, r.choice((0, 1)), 'nondoc', r.choice(sorted(NONDOCS))]]):
             return res
     for _ in range(spec.get('pairs', 3)):
         if n < 2:
             break
         i, j = sorted(r.sample(range(n), 2))
-        if handle([[i, r.choice((0, 1)), 'raise', r.choice(names)],
-                   [j, r.choice((0, 1)), 'raise', r.choice(names)]]):
+        if handle([[i, r.choice((0, 1)), 'raise', r.choice(names), r.randrange(len(PAYLOADS))],
+                   [j, r.choice((0, 1)), 'raise', r.choice(names), None]]):
             return res
         counters['pair_cases'] = counters.get('pair_cases', 0) + 1
     res['steps'] = counters.get('fault_cases', 0)
